@@ -18,6 +18,12 @@ Theorem C03_spec_holds : forall i : input, dom i = true -> spec_failures i (mode
 Proof. exact spec_holds. Qed.
 Print Assumptions C03_spec_holds.
 
+(* What the correspondence check evaluates: the same clauses on the longest in-domain prefix of ANY history (a message
+   outside the reading switches the clauses off only from that message on); no hypothesis on the input. *)
+Theorem C03_spec_holds_prefix : forall i : input, spec_failures_prefix i (model_run i) = [].
+Proof. exact spec_holds_prefix. Qed.
+Print Assumptions C03_spec_holds_prefix.
+
 (* The tracker's bookkeeping invariant (distinct device names; the purge watermark is a lower bound
    of every validity; every device keeps the location of its latest sighting) holds in every
    reachable state. *)
